@@ -45,6 +45,7 @@ namespace bxdecay0 {
 
   void Nd144low(i_random & prng_, event & event_, const int levelkev_)
   {
+    BXDECAY0_VERIF_SCOPE("scheme:Nd144low", levelkev_);
     // Subroutine describes the deexcitation process in Nd144 nucleus
     // after eb+/2e decay of Sm144 to the ground and excited 2+ levels
     // of Nd144 (ENSDF on 30.11.2018 and NDS 93(2001)599).
